@@ -703,8 +703,9 @@ def make_classes(ctx: Ctx) -> Dict[str, type]:
                 market.outstanding_shares = int(market.outstanding_shares) + int(iss.get("add", 1))
                 mon.probe("shares_issued_mid_run")
 
+    LateMarket = type("LateMarket", (TapMarket,), {})  # registered only after a first, refused set-up (C18)
     out = {c.__name__: c for c in (RecLogger, TapMarket, TapIndexMarket, TapFundamentals, TapSimulator,
-                                   ScriptedAgent, ScriptedHFT, Tap, ProbeEvent)}
+                                   ScriptedAgent, ScriptedHFT, Tap, ProbeEvent, LateMarket)}
     from . import probe_agents
     out.update(probe_agents.make(ctx))
     return out
